@@ -144,6 +144,9 @@ def sd_ops(dual):
     for x in XS + [1.0]:
         for v in OVS:
             ops.append(("ovw", x, v))
+    # a hintless insertion at / beyond the right end has no covering interval: the container refuses it (it raises);
+    # whatever it does, the set must stay the ordered set of the items it accepted
+    ops += [("rej", 1.0), ("rej", 1.5)]
     ops += [("clear",), ("refill",), ("best",)]
     if dual:
         ops.append(("bestlocal",))
@@ -280,6 +283,17 @@ def _sd_history(dual, seq, ops=None, maxlen=None):
                         continue      # a bounded queue may have evicted it at once; retention is judged at the requests
                     if role and not any(p == pr and i is i2 for p, i in ents):
                         msgs.append(f"{ctx}: after the insertion the {role} queue has no entry ({pr!r}, x={i2.GetX()})")
+        elif op[0] == "rej":
+            it = mk(op[1], 2.0, localR(2.0))
+            try:
+                sd.InsertDataItem(it, None)
+                model.items.append(it)       # accepted: then it is the last item of the set
+            except Exception:
+                pass                          # refused: the set is what it was
+            drain(model, msgs, ctx)
+            for qid, ents in model.q.items():
+                if ents:
+                    model.role[qid] = role_of(ents)
         elif op[0] == "ovw":
             _, x, v = op
             it = next(i for i in model.items if i.GetX() == x)
@@ -404,7 +418,7 @@ def _sd_history(dual, seq, ops=None, maxlen=None):
     enabled = [k for k, op in enumerate(ops)
                if (op[0] == "ins" and op[1] not in have) or (op[0] == "dup" and xs_all.count(op[1]) == 1) or (op[0] == "ovw" and op[1] in have and
                                                              next(i for i in model.items if i.GetX() == op[1]).globalR != op[2])
-               or op[0] in ("clear", "refill", "best", "bestlocal")]
+               or op[0] in ("clear", "refill", "best", "bestlocal", "rej")]
     return msgs, model, enabled
 
 
